@@ -5,7 +5,7 @@ From Coq Require Import String.
 Local Open Scope string_scope.
 
 Definition vif_names : list bytes :=
-  Eval compute in map bytes_of_string ["lo"; "eth0"; "br-lan"; "wlan0"; "eth0.100"; "abcdefghijklmno"].
+  Eval compute in map bytes_of_string ["lo"; "eth0"; "br-lan"; "wlan0"; "eth0.100"; "abcdefghijklmno"; "eth0:1"].
 
 Fixpoint vif_index (n : bytes) (l : list bytes) (i : Z) : Z :=
   match l with
